@@ -24,6 +24,7 @@ import (
 	"math/rand"
 	"os"
 	"path/filepath"
+	"regexp"
 	"runtime"
 	"runtime/debug"
 	"sort"
@@ -170,8 +171,23 @@ func classify(dec string, pan interface{}, stack string) string {
 		strings.HasPrefix(fr[0], "https/jose.(*byteBuffer).base64") && strings.HasPrefix(fr[1], "https/jose.JsonWebEncryption.computeAuthData") {
 		return "C07/jwe-no-protected-header-nil-deref"
 	}
+	// Size() of a command packet counts the preset Null command object although the payload ended after the
+	// transaction id: p[n+1:] of n bytes
+	if m := oneBeyond.FindStringSubmatch(msg); m != nil && len(fr) >= 1 && m[1] != "" {
+		var a, b int
+		fmt.Sscan(m[1], &a)
+		fmt.Sscan(m[2], &b)
+		switch fr[0] {
+		case "rtmp.(*PublishPacket).UnmarshalBinary", "rtmp.(*PlayPacket).UnmarshalBinary", "rtmp.(*CreateStreamResPacket).UnmarshalBinary":
+			if a == b+1 {
+				return "C07/rtmp-command-without-object-slice-panic"
+			}
+		}
+	}
 	return ""
 }
+
+var oneBeyond = regexp.MustCompile(`slice bounds out of range \[(\d+):(\d+)\]`)
 
 func hexInput(b []byte) string {
 	if len(b) <= 512 {
